@@ -1,5 +1,6 @@
 """Implementation side of C13: runs the real pio.py on JSON cases (stdin) -> JSON (stdout)."""
 import configparser
+import hashlib
 import json
 import os
 import re
@@ -11,6 +12,14 @@ from Reduino.toolchain import pio
 
 
 def kind_of(msg: str) -> int:
+    """which of the three rejections (the message quotes the caller's names, which may themselves contain
+    message fragments: the head of the message decides, the old unanchored search is only the fallback)"""
+    if re.match(r"\s*[Uu]nsupported PlatformIO platform", msg):
+        return 1
+    if re.match(r"\s*[Uu]nsupported PlatformIO board", msg):
+        return 2
+    if re.match(r"\s*[Bb]oard\b", msg) and re.search(r"requires PlatformIO platform", msg):
+        return 3
     if re.search(r"[Uu]nsupported PlatformIO platform", msg):
         return 1
     if re.search(r"[Uu]nsupported PlatformIO board", msg):
@@ -33,7 +42,21 @@ def do_validate(pl, b):
 def tree(root: Path):
     out = []
     for p in sorted(root.rglob("*")):
-        out.append(str(p.relative_to(root)) + ("/" if p.is_dir() else ""))
+        out.append(str(p.relative_to(root)) + ("/" if p.is_dir() and not p.is_symlink() else ""))
+    return out
+
+
+def snapshot(root: Path):
+    """names AND contents: {relative path: sha1 of the bytes | 'dir' | 'link:<target>'}"""
+    out = {}
+    for p in sorted(root.rglob("*")):
+        rel = str(p.relative_to(root))
+        if p.is_symlink():
+            out[rel] = "link:" + os.readlink(p)
+        elif p.is_dir():
+            out[rel + "/"] = "dir"
+        else:
+            out[rel] = hashlib.sha1(p.read_bytes()).hexdigest()
     return out
 
 
@@ -64,37 +87,122 @@ def do_iniread(text):
         return read_ini(f)[1]
 
 
-def do_write(src, port, pl, b, libs, pre_existing):
+# how the project directory is spelled by the caller (always the same directory <parent>/<PROJ_REL[form]>)
+PROJ_REL = {0: "proj", 1: "proj", 2: "a b/\u00e9 \u6f22/proj", 3: "proj", 4: "deep/er/proj"}
+
+
+def project_path(parent: Path, form: int) -> Path:
+    if form == 1:          # relative to the current directory (which is <parent>/cwd)
+        return Path("..") / "proj"
+    if form == 2:          # missing ancestors with blanks and non-ASCII names
+        return parent / "a b" / "\u00e9 \u6f22" / "proj"
+    if form == 3:          # not normalised: '.', '..' and a trailing component
+        return Path(str(parent) + "/./other/../proj")
+    if form == 4:          # relative, missing ancestors
+        return Path("..") / "deep" / "er" / "proj"
+    return parent / "proj"
+
+
+def do_write(src, port, pl, b, libs, pre_existing, form=0):
     with tempfile.TemporaryDirectory(prefix="c13-", dir=os.environ.get("VERIF_SCRATCH")) as d:
-        parent = Path(d)
+        parent = Path(d).resolve()
         (parent / "sentinel.txt").write_text("keep")
         (parent / "other").mkdir()
         (parent / "other" / "x.txt").write_text("x")
-        proj = parent / "proj"
+        # the process' current directory and HOME are inside the watched tree, so a file dropped
+        # "next to the script" or into the user's home shows up as an entry outside the project
+        (parent / "cwd").mkdir()
+        (parent / "home").mkdir()
+        old_cwd, old_home = os.getcwd(), os.environ.get("HOME")
+        os.chdir(parent / "cwd")
+        os.environ["HOME"] = str(parent / "home")
+        try:
+            return _do_write(parent, src, port, pl, b, libs, pre_existing, form)
+        finally:
+            os.chdir(old_cwd)
+            if old_home is None:
+                os.environ.pop("HOME", None)
+            else:
+                os.environ["HOME"] = old_home
+
+
+def _do_write(parent, src, port, pl, b, libs, pre_existing, form):
+        proj = project_path(parent, form)
+        real = parent / PROJ_REL[form]
         if isinstance(pre_existing, list):
             # the project directory was written before by an earlier write_project call (a related source,
             # another port / library list): the property says "always writes", whatever is already there
-            _, src0, port0, libs0 = pre_existing
-            pio.write_project(proj, src0, port0, platform=pl, board=b, lib_deps=libs0)
+            src0, port0, libs0 = pre_existing[1:4]
+            pl0, b0 = (pre_existing[4], pre_existing[5]) if len(pre_existing) >= 6 else (pl, b)
+            try:
+                pio.write_project(proj, src0, port0, platform=pl0, board=b0, lib_deps=libs0)
+            except Exception as e:  # noqa - the earlier call is itself a write for a registered pair inside the guard
+                return {"status": "Other", "exc": type(e).__name__, "msg": str(e)[:200], "stage": "the earlier write_project call",
+                        "earlier_call": [src0[:80], port0, pl0, b0, libs0]}
         elif pre_existing:
-            (proj / "src").mkdir(parents=True)
-            (proj / "src" / "main.cpp").write_text("old")
-            (proj / "platformio.ini").write_text("[env:old]\nboard = old\n")
+            (real / "src").mkdir(parents=True)
+            (real / "src" / "main.cpp").write_text("old")
+            (real / "platformio.ini").write_text("[env:old]\nboard = old\n")
         before = tree(parent)
+        snap = snapshot(parent)
         try:
             pio.write_project(proj, src, port, platform=pl, board=b, lib_deps=libs)
         except ValueError as e:
-            return {"status": "ValueError", "kind": kind_of(str(e)), "tree_unchanged": tree(parent) == before}
+            return {"status": "ValueError", "kind": kind_of(str(e)), "tree_unchanged": snapshot(parent) == snap}
         except Exception as e:  # noqa
             return {"status": "Other", "exc": type(e).__name__, "msg": str(e)[:200]}
         after = tree(parent)
+        snap2 = snapshot(parent)
+        prefix = PROJ_REL[form] + "/"
+        changed_outside = sorted(k for k in set(snap) | set(snap2)
+                                 if snap.get(k) != snap2.get(k) and not k.startswith(prefix) and not prefix.startswith(k))
         outside_ok = (parent / "sentinel.txt").read_text() == "keep" and (parent / "other" / "x.txt").read_text() == "x"
-        main_bytes = (proj / "src" / "main.cpp").read_bytes()
-        ini_text = (proj / "platformio.ini").read_bytes().decode("utf-8")
-        parsed, raw = read_ini(proj / "platformio.ini")
+        main_p, ini_p = real / "src" / "main.cpp", real / "platformio.ini"
+        main_bytes = main_p.read_bytes() if main_p.is_file() else None
+        try:
+            ini_text = ini_p.read_bytes().decode("utf-8") if ini_p.is_file() else None
+        except UnicodeDecodeError:
+            ini_text = None
+        parsed, raw = read_ini(ini_p) if ini_text is not None else ({"__error__": "missing"}, {"__error__": "missing"})
         return {"status": "ok", "main_equal": main_bytes == src.encode("utf-8"),
                 "ini": ini_text, "parsed": parsed, "raw": raw, "new_entries": [x for x in after if x not in before],
-                "removed_entries": [x for x in before if x not in after], "outside_ok": outside_ok}
+                "removed_entries": [x for x in before if x not in after], "outside_ok": outside_ok,
+                "changed_outside": changed_outside, "proj_rel": prefix}
+
+
+def harvest():
+    """every string the module itself holds: members (keys, values, elements, nested) of its module-level
+    containers, its module-level strings, and the string constants of its source text"""
+    import ast
+    import inspect
+    found = {}
+
+    def add(s, where):
+        if isinstance(s, str) and len(s) <= 80:
+            found.setdefault(s, where)
+
+    def walk(v, where, depth=0):
+        if isinstance(v, str):
+            add(v, where)
+        elif depth < 4 and isinstance(v, dict):
+            for k, x in v.items():
+                walk(k, where + ".key", depth + 1)
+                walk(x, where + ".value", depth + 1)
+        elif depth < 4 and isinstance(v, (set, frozenset, list, tuple)):
+            for x in v:
+                walk(x, where, depth + 1)
+
+    for name, v in vars(pio).items():
+        if name.startswith("__") and name.endswith("__"):
+            continue
+        walk(v, name)
+    try:
+        for node in ast.walk(ast.parse(inspect.getsource(pio))):
+            if isinstance(node, ast.Constant) and isinstance(node.value, str):
+                add(node.value, "source-constant")
+    except (OSError, SyntaxError):
+        pass
+    return sorted(found.items())
 
 
 def main():
@@ -114,6 +222,8 @@ def main():
             out.append(pio._format_lib_section(c[1]))
         elif c[0] == "envname":
             out.append(pio._sanitize_env_name(c[1]))
+        elif c[0] == "harvest":
+            out.append(harvest())
     json.dump(out, sys.stdout)
 
 
